@@ -1,16 +1,20 @@
 #!/bin/sh
-# usage: try_patch.sh <patch.diff> <PROP> [PROP...]   -- applies a seeded change to /repo, runs the checks, reverts.
-# The evidence files are saved before and restored afterwards (evidence must come from the unchanged tree).
+# usage: try_patch.sh <patch.diff> <PROP> [PROP...]   -- applies a seeded change to a SCRATCH worktree of /repo (never to
+# /repo itself), runs the quick checks against it (VERIF_REPO / VERIF_SCRATCH: evidence and replay files go to a temporary
+# directory, so /verif/evidence always comes from /repo), reverts.
 p="$1"; shift
-cd /repo || exit 2
-if ! git diff --quiet; then echo "repo dirty"; exit 2; fi
+WT=${TRY_WT:-/tmp/wt_try}
+head=$(git -C /repo rev-parse HEAD)
+if [ ! -d "$WT" ]; then git -C /repo worktree add --detach "$WT" "$head" >/dev/null 2>&1 || exit 2; fi
+cd "$WT" || exit 2
+git checkout -q --detach "$head" 2>/dev/null; git checkout -q -- . 2>/dev/null
 if ! git apply "$p"; then echo "PATCH DOES NOT APPLY: $p"; exit 3; fi
-sav=$(mktemp -d); cp -a /verif/evidence/. "$sav"/
+sav=$(mktemp -d)
 for prop in "$@"; do
   echo "--- $prop on $p"
-  python3 /verif/check.py "$prop" --tier quick > "$sav/.out" 2>&1; rc=$?
+  VERIF_REPO="$WT" VERIF_SCRATCH="$sav" python3 /verif/check.py "$prop" --tier quick > "$sav/.out" 2>&1; rc=$?
   grep -v conda "$sav/.out" | grep -v "^KNOWN-FINDING" | cut -c1-400 | head -8
   echo "exit=$rc"
 done
-git -C /repo checkout -- .
-cp -a "$sav"/*.json /verif/evidence/; rm -rf "$sav"
+git -C "$WT" checkout -q -- .
+rm -rf "$sav"
